@@ -4,11 +4,13 @@ import (
 	"bytes"
 	"encoding/binary"
 	"fmt"
+	"io"
 	"os"
 	"path/filepath"
 	"sort"
 	"strings"
 	"testing"
+	"testing/iotest"
 
 	"github.com/kelindar/column/commit"
 	"pgregory.net/rapid"
@@ -253,6 +255,44 @@ const (
 
 var c05TmpDir string
 
+// patternReader hands out its data in pieces of 1, 2, 3, 5, 8, 13, 1, ... bytes.
+type patternReader struct {
+	data []byte
+	i    int
+}
+
+func (p *patternReader) Read(dst []byte) (int, error) {
+	if len(p.data) == 0 {
+		return 0, io.EOF
+	}
+	n := []int{1, 2, 3, 5, 8, 13}[p.i%6]
+	p.i++
+	if n > len(dst) {
+		n = len(dst)
+	}
+	if n > len(p.data) {
+		n = len(p.data)
+	}
+	copy(dst, p.data[:n])
+	p.data = p.data[n:]
+	return n, nil
+}
+
+// deliver wraps encoded bytes in one of four legal io.Readers (chosen by the size and the variant,
+// so that a case stays a pure function of its inputs): all at once, one byte per Read, pieces of a
+// fixed pattern, or half of what is asked with the final data arriving together with io.EOF.
+func deliver(b []byte, variant int) io.Reader {
+	switch (len(b) + variant) % 4 {
+	case 1:
+		return iotest.OneByteReader(bytes.NewReader(b))
+	case 2:
+		return &patternReader{data: b}
+	case 3:
+		return iotest.DataErrReader(iotest.HalfReader(bytes.NewReader(b)))
+	}
+	return bytes.NewReader(b)
+}
+
 // checkC05 runs all oracles of C05 for one written op list. variant selects the
 // typed Put* entry points used.
 func checkC05(ops []bop, variant int, level c05Level) error {
@@ -280,7 +320,7 @@ func checkC05(ops []bop, variant int, level c05Level) error {
 		return fmt.Errorf("Buffer.WriteTo: %v", err)
 	}
 	dec := commit.NewBuffer(0)
-	if _, err := dec.ReadFrom(bytes.NewReader(enc.Bytes())); err != nil {
+	if _, err := dec.ReadFrom(deliver(enc.Bytes(), variant)); err != nil {
 		return fmt.Errorf("Buffer.ReadFrom: %v", err)
 	}
 	if err := checkBufferViews("decoded buffer", dec, ops); err != nil {
@@ -325,7 +365,7 @@ func checkC05(ops []bop, variant int, level c05Level) error {
 			return fmt.Errorf("Commit.WriteTo: %v", err)
 		}
 		var back commit.Commit
-		if _, err := back.ReadFrom(bytes.NewReader(w.Bytes())); err != nil {
+		if _, err := back.ReadFrom(deliver(w.Bytes(), variant)); err != nil {
 			return fmt.Errorf("Commit.ReadFrom(block %d): %v", b, err)
 		}
 		if err := checkCommitEquals(&back, cm.ID, b, ops); err != nil {
@@ -358,7 +398,7 @@ func checkC05(ops []bop, variant int, level c05Level) error {
 				return fmt.Errorf("Log.Append: %v", err)
 			}
 		}
-		if err := checkLog(commit.Open(bytes.NewReader(store.Bytes())), commits, blocks, ops); err != nil {
+		if err := checkLog(commit.Open(deliver(store.Bytes(), variant)), commits, blocks, ops); err != nil {
 			return fmt.Errorf("log (memory): %v", err)
 		}
 	}
@@ -396,7 +436,7 @@ func checkC05(ops []bop, variant int, level c05Level) error {
 		return err
 	}
 	dec2 := commit.NewBuffer(0)
-	if _, err := dec2.ReadFrom(bytes.NewReader(enc2.Bytes())); err != nil {
+	if _, err := dec2.ReadFrom(deliver(enc2.Bytes(), variant)); err != nil {
 		return err
 	}
 	var decodedCommits []*commit.Buffer
@@ -410,7 +450,7 @@ func checkC05(ops []bop, variant int, level c05Level) error {
 			return err
 		}
 		var back commit.Commit
-		if _, err := back.ReadFrom(bytes.NewReader(w.Bytes())); err != nil {
+		if _, err := back.ReadFrom(deliver(w.Bytes(), variant)); err != nil {
 			return err
 		}
 		decodedCommits = append(decodedCommits, back.Updates[0])
@@ -615,7 +655,7 @@ func checkSwap(buf *commit.Buffer, ops []bop, blocks []uint32) error {
 			return err
 		}
 		var back commit.Commit
-		if _, err := back.ReadFrom(bytes.NewReader(w.Bytes())); err != nil {
+		if _, err := back.ReadFrom(deliver(w.Bytes(), len(ops))); err != nil {
 			return fmt.Errorf("after swap: Commit.ReadFrom: %v", err)
 		}
 		for _, view := range []*commit.Buffer{back.Updates[0], buf.Clone()} {
